@@ -130,12 +130,12 @@ func (tr *Trace) Call(api, tag string) int {
 }
 
 // Ret records the return of an API call.
-func (tr *Trace) Ret(call int, api, tag string, err error) {
+func (tr *Trace) Ret(call int, api, tag string, err error) int {
 	e := Event{Kind: KRet, S: api, S2: tag, Ref: call, OK: err == nil}
 	if err != nil {
 		e.Err = err.Error()
 	}
-	tr.Add(e)
+	return tr.Add(e)
 }
 
 // OnlineViolation records a violation detected while running. Mu must NOT be held.
